@@ -158,6 +158,9 @@ type Replay struct {
 	Universe *Universe `json:"universe"`
 	Ops      []Op      `json:"ops"`
 	Extra    any       `json:"extra,omitempty"`
+	// Listener is the drawn listener configuration of the case ("" none, "full" a recorder), for
+	// checks whose base configuration leaves it open.
+	Listener string `json:"listener,omitempty"`
 }
 
 // Sim drives one world (and optional twins) in lock-step with the model.
@@ -284,7 +287,7 @@ func (s *Sim) Report(f *Finding) {
 	if len(s.SubSpecs) > 0 {
 		extra = s.SubSpecs
 	}
-	WriteFail(&Replay{Property: s.Cfg.Prop, Build: BuildName(), Message: msg, Universe: s.M.U, Ops: s.Ops, Extra: extra})
+	WriteFail(&Replay{Property: s.Cfg.Prop, Build: BuildName(), Message: msg, Universe: s.M.U, Ops: s.Ops, Extra: extra, Listener: s.Cfg.Listener})
 	if f.Cat == CatHarness {
 		s.T.Fatalf("HARNESS-BUG %s: %s", s.Cfg.Prop, msg)
 	}
